@@ -1,18 +1,165 @@
-(** KvCache/Properties_C06.v - theorems of property C06 (statements only; proofs in KvCache/Proofs*.v). *)
-From Coq Require Import List ZArith NArith Bool Arith Lia.
-From V Require Import KvCache.Model.
+(** KvCache/Properties_C06.v - theorems of property C06, "the KV cache exposes exactly the causal history of
+    each sequence" (statements; the proofs are in KvCache/Proofs*.v).
+
+    Model: KvCache/Model.v ([fx = true]: kvcache/causal.go with fixes/C06-defrag-merge.patch and
+    fixes/C06-canresume-window.patch applied).  Specification: KvCache/Spec.v - a multiset of entries
+    (position, token, owning sequences); sliding-window eviction is part of the specification.
+    [prun] runs a history in which a failing Remove is followed by Remove(seq, 0, MaxInt32), as kvcache/cache.go
+    prescribes.  [op_ok]: batches are non-empty with positions in [0, MaxInt32), Remove has 0 <= begin <= end. *)
+From Coq Require Import List ZArith NArith Bool Arith Lia Permutation.
+From V Require Import KvCache.Model KvCache.ProofsList KvCache.ProofsInv KvCache.ProofsDefrag KvCache.ProofsOps
+  KvCache.ProofsFwd KvCache.ProofsRefine KvCache.ProofsFindings.
+From V Require KvCache.Spec.
 Import ListNotations.
 Open Scope Z_scope.
 
-(** every location a batch token attends to is owned by the token's sequence, not later than the token and
-    inside the window *)
-Theorem C06_mask_sound : forall w cs pr q p j,
-  In j (mask_row w cs pr q p) ->
-  has q (cell_at cs j) = true /\ c_pos (cell_at cs j) <= p /\
-  match w with Some w => p - w <= c_pos (cell_at cs j) | None => True end.
+(** *** Refinement, over every operation history, capacity, padding and window.
+    After ANY history of protocol-level operations starting from the state built by Init, the representation
+    invariant holds (metadata and physical data agree: every live location holds the row stored for it, with
+    the position baked into K equal to the position of the cell; every live cell lies inside the range recorded
+    for each of its sequences) and the live entries are, as a multiset, those of the specification run on the
+    same operations. *)
+Theorem C06_refines : forall w ms cap mb cp bp sh ops,
+  Z.of_nat (cache_size w ms cap mb (norm_pad cp)) < MaxInt ->
+  Forall op_ok ops ->
+  let c := prun (init w ms cap mb cp bp sh) ops in
+  Inv c /\ R c (Spec.spec_prun (Spec.spec_init (cache_size w ms cap mb (norm_pad cp)) w sh) (map to_sop ops)).
 Proof.
-  intros w cs pr q p j H. unfold mask_row in H. apply filter_In in H. destruct H as [_ H].
-  unfold visible_at in H. apply andb_true_iff in H. destruct H as [H H3]. apply andb_true_iff in H. destruct H as [H1 H2].
-  split; [exact H1|]. apply negb_true_iff in H2, H3. split; [lia|]. destruct w; [lia|exact I].
+  intros w ms cap mb cp bp sh ops Hsz Hok. destruct (init_inv w ms cap mb cp bp sh Hsz) as [HI HR].
+  apply prun_refines; assumption.
 Qed.
-Print Assumptions C06_mask_sound.
+Print Assumptions C06_refines.
+
+(** every single operation commutes with its specification, results included (EFull / EShared / ENotSupported
+    are reported exactly when the specification reports them; CanResume answers what the specification answers) *)
+Theorem C06_step_refines : forall c s o, Inv c -> R c s -> op_ok o ->
+  Inv (fst (pstep c o)) /\ R (fst (pstep c o)) (fst (Spec.spec_pstep s (to_sop o))) /\
+  out_agree (snd (pstep c o)) (snd (Spec.spec_pstep s (to_sop o))).
+Proof. exact step_refines. Qed.
+Print Assumptions C06_step_refines.
+
+(** *** The exposed history is exact.
+    After a successful StartForward + Put, for every batch token i = (seq, pos, _): the (kpos, token) pairs
+    read from the physical rows at the locations the mask leaves open - locations taken from the *padded*
+    range - are, as a multiset, the specification's visible history of (seq, pos): the entries owned by seq
+    with position <= pos and, when a window is configured, >= pos - window.  Nothing foreign, nothing removed,
+    nothing later, nothing missing, and kpos = position on each of them. *)
+Theorem C06_visible_exact : forall c s batch c' f, Inv c -> R c s -> valid_batch batch ->
+  start_forward true c batch = (c', OFwd f) ->
+  forall i e, nth_error batch i = Some e ->
+  exists vis, nth_error (f_vis f) i = Some vis /\
+    Permutation (map (kt (phys c')) vis) (Spec.visible_raw (fst (Spec.spec_forward s batch)) (e_seq e) (e_pos e)).
+Proof.
+  intros c s batch c' f HI HR Hvb Hsf i e He.
+  pose proof (forward_correct c batch HI Hvb) as HF. rewrite Hsf in HF.
+  destruct HF as [HI' [_ [_ [_ [_ [[Hc _]|[f' [Hf [_ Hvis]]]]]]]]]; simpl in *; [discriminate|].
+  injection Hf as <-. destruct (Hvis i e He) as [vis [Hn Hm]]. exists vis. split; [exact Hn|]. rewrite Hm.
+  pose proof (step_refines c s (Forward batch) HI HR Hvb) as [_ [HR' _]]. simpl in HR'. rewrite Hsf in HR'. simpl in HR'.
+  apply visible_raw_perm. apply R_seqv. exact HR'.
+Qed.
+Print Assumptions C06_visible_exact.
+
+(** what the specification's visible history is, spelled out *)
+Theorem C06_visible_meaning : forall s q p x,
+  In x (Spec.visible_raw s q p) <->
+  exists a, In a (Spec.s_cells s) /\ Spec.has q a = true /\ Spec.a_pos a <= p /\
+            match Spec.s_window s with Some w => p - w <= Spec.a_pos a | None => True end /\
+            x = (Spec.a_pos a, Spec.a_tok a).
+Proof.
+  intros s q p x. unfold Spec.visible_raw, Spec.in_window. rewrite in_map_iff. split.
+  - intros [a [Hx Ha]]. apply filter_In in Ha. destruct Ha as [Hin Hc]. apply andb_true_iff in Hc. destruct Hc as [H1 H2].
+    apply andb_true_iff in H2. destruct H2 as [H2 H3]. exists a. repeat split; auto.
+    + apply Z.leb_le. exact H2.
+    + destruct (Spec.s_window s); [apply Z.leb_le; exact H3|exact I].
+  - intros [a [Hin [H1 [H2 [H3 ->]]]]]. exists a. split; [reflexivity|]. apply filter_In. split; [exact Hin|].
+    rewrite H1. simpl. apply andb_true_iff. split; [apply Z.leb_le; exact H2|].
+    destruct (Spec.s_window s); [apply Z.leb_le; exact H3|reflexivity].
+Qed.
+Print Assumptions C06_visible_meaning.
+
+(** *** A full cache is an error, nothing else.
+    StartForward either places the batch or returns ErrKvCacheFull (it never panics in the repaired code), it
+    returns ErrKvCacheFull exactly when fewer locations are free (after sliding-window eviction) than the batch
+    needs, and then the live entries are exactly those before the call minus what the window evicted: no live
+    entry was overwritten or altered (defragmentation may have moved them, rows included). *)
+Theorem C06_full_is_error : forall c batch, Inv c -> valid_batch batch ->
+  let r := start_forward true c batch in
+  let kept := Spec.evict (window c) batch (abs_cells (cells c) (phys c)) in
+  Inv (fst r) /\
+  ((length (cells c) - length kept < length batch)%nat ->
+     snd r = OErr EFull /\ Permutation (abs_cells (cells (fst r)) (phys (fst r))) kept) /\
+  ((length batch <= length (cells c) - length kept)%nat -> exists f, snd r = OFwd f).
+Proof.
+  intros c batch HI Hvb. cbv zeta.
+  pose proof (forward_correct c batch HI Hvb) as [HI' [HP [_ [_ [_ Hout]]]]].
+  assert (Hn : (1 <= length batch)%nat) by (destruct Hvb as [Hne _]; destruct batch; [congruence|simpl; lia]).
+  rewrite spec_forward_unfold in HP, Hout.
+  assert (Hmax : Nat.max 1 (@length Spec.entry batch) = length batch) by (apply Nat.max_r; exact Hn).
+  rewrite Hmax in HP, Hout. split; [exact HI'|]. split.
+  - intros Hlt. destruct (Nat.ltb_spec (length (cells c) - length (Spec.evict (window c) batch (abs_cells (cells c) (phys c)))) (length batch)); [|lia].
+    simpl in HP, Hout. destruct Hout as [[Ho _]|[f [_ [Hc _]]]]; [|discriminate]. auto.
+  - intros Hge. destruct (Nat.ltb_spec (length (cells c) - length (Spec.evict (window c) batch (abs_cells (cells c) (phys c)))) (length batch)); [lia|].
+    simpl in Hout. destruct Hout as [[_ Hc]|[f [Ho _]]]; [discriminate|]. eauto.
+Qed.
+Print Assumptions C06_full_is_error.
+
+(** *** Defragmentation (repaired) keeps every (cell, row) pair together and compacts the cache. *)
+Theorem C06_defrag_repaired : forall c c', Inv c -> defrag true c = Some c' ->
+  Inv c' /\ Permutation (live_pairs (cells c') (phys c')) (live_pairs (cells c) (phys c)) /\ compact (cells c').
+Proof. intros c c' HI H. destruct (defrag_correct c c' HI H) as [A [B [C _]]]. auto. Qed.
+Print Assumptions C06_defrag_repaired.
+
+(** *** The defects of the code as found, as theorems about [fx = false] (see KvCache/ProofsFindings.v). *)
+
+(** defrag as found: the full statement, its refutation, and the repaired statement is [C06_defrag_repaired] *)
+Definition C06_defrag_as_found_full : Prop :=
+  forall c c', Inv c -> defrag false c = Some c' -> Inv c'.
+Theorem C06_defrag_as_found_refuted : ~ C06_defrag_as_found_full.
+Proof. exact defrag_as_found_refuted. Qed.
+Print Assumptions C06_defrag_as_found_refuted.
+
+(** defrag as found divides by the number of layers: a forward pass into a cache without storage that does not
+    fit panics instead of reporting ErrKvCacheFull *)
+Theorem C06_defrag_as_found_panics : exists c batch, Inv c /\ valid_batch batch /\ snd (start_forward false c batch) = OPanic.
+Proof. exact defrag_as_found_panics. Qed.
+Print Assumptions C06_defrag_as_found_panics.
+
+(** CanResume: the repaired check guarantees that the window of the resumed position is completely present
+    (positions of a sequence being distinct, as the runner guarantees); the check as found does not *)
+Theorem C06_can_resume_sound : forall c q p w, Inv c -> window c = Some w ->
+  NoDup (map c_pos (filter (has q) (cells c))) ->
+  can_resume true c q p = true ->
+  forall x, Z.max 0 (p - w) <= x < p -> exists cl, In cl (cells c) /\ has q cl = true /\ c_pos cl = x.
+Proof. exact can_resume_sound. Qed.
+Print Assumptions C06_can_resume_sound.
+
+Definition C06_can_resume_as_found_full : Prop :=
+  forall c q p w, Inv c -> window c = Some w -> NoDup (map c_pos (filter (has q) (cells c))) ->
+  can_resume false c q p = true ->
+  forall x, Z.max 0 (p - w) <= x < p -> exists cl, In cl (cells c) /\ has q cl = true /\ c_pos cl = x.
+Theorem C06_can_resume_as_found_refuted : ~ C06_can_resume_as_found_full.
+Proof. exact can_resume_as_found_refuted. Qed.
+Print Assumptions C06_can_resume_as_found_refuted.
+
+(** *** Non-vacuity: a concrete history (store, copy the prefix, diverge, remove a middle range with shift, fill
+    up so that defragmentation runs) satisfies the hypotheses, and the visible history at its end is the expected one *)
+Example C06_example_history :
+  let ops := [Forward [(0%nat, 0, 1%N); (0%nat, 1, 2%N); (0%nat, 2, 3%N)];
+              Copy 0 1 2;
+              Forward [(1%nat, 2, 4%N)];
+              Remove 0 1 2;
+              Forward [(0%nat, 2, 5%N); (1%nat, 3, 6%N)];
+              Remove 1 0 MaxInt32;
+              Forward [(0%nat, 3, 7%N); (0%nat, 4, 8%N); (0%nat, 5, 9%N)]] in
+  Forall op_ok ops /\
+  let c := prun (init None 2 4 3 1 1 true) ops in
+  Spec.visible (Spec.spec_prun (Spec.spec_init 8 None true) (map to_sop ops)) 0 5 =
+    [(0, 1%N); (1, 3%N); (2, 5%N); (3, 7%N); (4, 8%N); (5, 9%N)] /\
+  map (fun cl => (c_pos cl, c_seqs cl)) (cells c) =
+    [(0, [0%nat]); (4, [0%nat]); (1, [0%nat]); (5, [0%nat]); (3, [0%nat]); (2, [0%nat]); (0, []); (0, [])].
+Proof.
+  cbv zeta. split.
+  - repeat constructor; unfold valid_batch, e_pos, MaxInt32; simpl; try (intro; discriminate); try lia;
+      repeat constructor; simpl; lia.
+  - vm_compute. split; reflexivity.
+Qed.
